@@ -12,7 +12,7 @@ from harness.programs.compile import cfg_for_tla
 
 
 def collect(chk, families, paths_q=30, paths_t=400, walks_q=8, walks_t=200, depth=16, allow_cancel=False,
-            timeout_advance=False, drain=True, max_ext=2, p_cancel=0.0):
+            timeout_advance=False, drain=True, max_ext=2, p_cancel=0.0, batch=False, sleep_ms=0):
     """[(label, prog, ext, trace, schedule)] from bounded DFS + seeded random walks on the real engine."""
     items = []
     rng = random.Random(chk.seed)
@@ -20,10 +20,12 @@ def collect(chk, families, paths_q=30, paths_t=400, walks_q=8, walks_t=200, dept
         for (label, prog, ext) in sc.family(fam, quick=chk.quick):
             for (tr, sched) in et.explore(prog, ext_menu=ext, max_depth=depth, max_paths=chk.pick(paths_q, paths_t),
                                           rng=random.Random(rng.random()), allow_cancel=allow_cancel,
-                                          timeout_advance=timeout_advance, drain=drain, max_ext=max_ext):
+                                          timeout_advance=timeout_advance, drain=drain, max_ext=max_ext,
+                                          batch=batch, sleep_ms=sleep_ms):
                 items.append((label, prog, ext, tr, sched))
             for _ in range(chk.pick(walks_q, walks_t)):
-                tr, sched = et.random_walk(prog, random.Random(rng.random()), ext_menu=ext, p_cancel=p_cancel)
+                tr, sched = et.random_walk(prog, random.Random(rng.random()), ext_menu=ext, p_cancel=p_cancel,
+                                           batch=batch, sleep_ms=sleep_ms)
                 items.append((label, prog, ext, tr, sched))
     return items
 
